@@ -280,7 +280,8 @@ def enabled (cfg : Cfg) (reqs : List (Kind × Nat × Ns)) (g : GState) : List St
   let perReq := (List.range n).flatMap fun i =>
     (if s.rpc i == .fresh && !busySending n s && !pendingBad s then [s!"c{i}"] else []) ++
     (if s.rpc i == .sending && !(s.broken || s.outClosed) then [s!"o{i}", s!"f{i}"] else []) ++
-    (if !s.cancelled i && (s.rpc i == .sending || s.rpc i == .waiting) then [s!"x{i}"] else []) ++
+    -- (round F) also after the call returned a response it has not closed yet: the context ends, the serve loop keeps waiting
+    (if !s.cancelled i && (s.rpc i == .sending || s.rpc i == .waiting || (match s.rpc i with | .done (.reply _) false => true | _ => false)) then [s!"x{i}"] else []) ++
     (if s.rpc i == .waiting && !g.insel.contains i then [s!"s{i}"] else []) ++
     (match s.rpc i with | .done (.reply _) false => [s!"k{i}", s!"d{i}"] | .done (.reply _) true => (if g.drained.contains i then [] else [s!"k{i}"]) | _ => [])
   let serveFree := match s.spc with
